@@ -277,6 +277,15 @@ func (c *DataplaneView[K, V]) ReplaceAllIter(iter func(func(k K, v V)) error) er
 	newInDPNotDesired := make(map[K]V)
 
 	err := iter(func(k K, v V) {
+		if prevV, seen := newInDPDesired[k]; seen {
+			// The iterator returned this (desired) key more than once; the last value wins.
+			// If the earlier value matched the desired value, the pending update was cleared
+			// and the key removed from the old map, so the desired lookup below would no
+			// longer find it.  Restore the desired value so that the key is handled as desired.
+			if _, pending := c.desiredUpdates[k]; !pending {
+				c.desiredUpdates[k] = prevV
+			}
+		}
 		// Figure out if we _want_ it to exist and tee up update/deletion accordingly.
 		if desiredV, desired := c.asDesiredView().Get(k); desired {
 			// Record that this key exists in the new copy of the cache.
